@@ -29,13 +29,34 @@ TRUSTED = ['float64 evaluation of compute_area on integer-valued coordinates is 
            'numpy strided slice assignment (values[a:b:2] = xs[::-1]) as transcribed in Model/Orient.v',
            'pyarrow ListArray.from_arrays(offsets with mask) as transcribed: validity = not isna, '
            'offset 0, the offsets arrays passed',
-           'pyarrow buffers() export (harness/common.py export_listarr, harness/c14_util.py view_of)']
+           'pyarrow buffers() of arr.__arrow_array__() (harness/c14_util.py export_la / decode)']
 
 IMPORTS = 'Model.Num Model.Arrow Model.Measures Model.Orient Spec.MeasuresSpec'
+# Only PUBLIC observations can raise an alarm: the DECODED elements (parts, rings, vertices,
+# missing mask), class, dtype and length of oriented() / oriented().oriented(), the bytes of the
+# input's buffers before / after, .area, intersects_bounds / intersects.  The buffer layout of
+# the result (offsets, values buffer incl. rings outside a slice) is an optional internal extra.
+# The model is compared with the code on arrays inside the property's scope (every ring of >= 3
+# vertices finite and closed); arrays with NaN-vertex or unclosed rings are an internal extra.
+DEC = 'list (option (list (list (list num))))'
 VIEW = '(list bool * list (list nat) * list num)'
-FN = "fun '(k, a) => if wf_listarr a && even_inner a then Some (oriented_views k a) else None"
+FN = ("fun '(k, a) => if wf_listarr a && even_inner a then "
+      "Some (decode_elems k (oriented k a), decode_elems k (oriented k (oriented k a))) else None")
 CASE_TY = 'kind * listarr'
-RES_TY = f'option ({VIEW} * {VIEW})'
+RES_TY = f'option ({DEC} * {DEC})'
+INT_FN = "fun '(k, a) => oriented_views k a"
+INT_RES = f'{VIEW} * {VIEW}'
+
+
+class Ctx:
+    def __init__(self):
+        self.main = U.Batch(IMPORTS, FN, CASE_TY, RES_TY)
+        self.oos = U.Batch(IMPORTS, FN, CASE_TY, RES_TY, internal='oriented-out-of-scope-rings')
+        self.layout = U.Batch(IMPORTS, INT_FN, CASE_TY, INT_RES, internal='oriented-buffer-layout')
+
+    def flush(self, rep):
+        for b in (self.main, self.oos, self.layout):
+            b.flush(rep)
 
 
 def area2_code(r):
@@ -76,11 +97,11 @@ def check_oriented(rep, batch, kind, st, els, nder=0, desc=None, intersections=F
     if desc is None:
         arr, desc = G.derive(rng, arr, nder)
     meta = {'kind': kind, 'subtype': st, 'elements': els, 'derivation': desc}
-    if str(arr.data.type) == 'null':
+    if str(U.pa_of(arr).type) == 'null':
         rep.count('null_typed_skipped')
         return
     try:
-        rec = C.export_listarr(arr)
+        rec = U.export_la(arr)
     except ValueError:
         rep.count('null_typed_skipped')
         return
@@ -88,7 +109,7 @@ def check_oriented(rep, batch, kind, st, els, nder=0, desc=None, intersections=F
     rep.count(kind)
     if desc:
         rep.count('derived')
-    if arr.data.offset:
+    if U.pa_of(arr).offset:
         rep.count('nonzero_offset')
     before = U.buffers_bytes(arr)
     dec = U.decode(arr)
@@ -105,13 +126,21 @@ def check_oriented(rep, batch, kind, st, els, nder=0, desc=None, intersections=F
         rep.violation(f'oriented-type:{kind}', 'oriented() changed class / dtype / length',
                       {**meta, 'got': [type(o1).__name__, str(o1.dtype), len(o1)]})
         return
-    # ---- model = code
+    # ---- model = code, on the decoded elements
     K = C.Raw(U.KIND_CTOR[kind])
-    v1, v2 = U.view_of(o1), U.view_of(o2)
-    batch.add((K, rec), C.Some((v1, v2)), f'oriented-differs:{kind}',
-              f'{kind}.oriented() (once, twice) differs from the model', meta)
-    # ---- properties on the real result, by exact integer arithmetic
+    if U.is_null_typed(U.pa_of(o1)) or U.is_null_typed(U.pa_of(o2)):
+        rep.count('null_typed_skipped')
+        return
     d1, d2 = U.decode(o1), U.decode(o2)
+    all_ok = all(ring_ok(r) for d in dec if d is not None for p in polygons_of(kind, d) for r in p)
+    (batch.main if all_ok else batch.oos).add(
+        (K, rec), C.Some((U.coq_decoded(kind, d1), U.coq_decoded(kind, d2))),
+        f'oriented-differs:{kind}', f'{kind}.oriented() (once, twice) differs from the model', meta)
+    try:
+        batch.layout.add((K, rec), (U.view_of(o1), U.view_of(o2)), '', '', meta)
+    except Exception:
+        rep.count('internal-unavailable:oriented-buffer-layout')
+    # ---- properties on the real result, by exact integer arithmetic
     polys0 = [polygons_of(kind, d) for d in dec]
     polys1 = [polygons_of(kind, d) for d in d1]
     nflip = 0
@@ -162,7 +191,7 @@ def check_oriented(rep, batch, kind, st, els, nder=0, desc=None, intersections=F
         rep.count('some_ring_flipped')
     if in_scope:
         rep.count('in_scope')
-        if v1 != v2 or not U._nan_eq(d1, d2):
+        if not U._nan_eq(d1, d2):
             rep.violation(f'oriented-not-idempotent:{kind}', 'oriented().oriented() != oriented()',
                           {**meta, 'once': d1, 'twice': d2})
         # valid polygons: total area = |shell| - sum |holes| when that is what the input says
@@ -422,7 +451,7 @@ def run(rep):
                 '(holes inside shell, disjoint parts) with all 2^(1+holes) patterns for the intersection '
                 'comparison on a half-integer point grid and 40 boxes; random closed rings; non-trivial = '
                 'at least one ring reversed; distinct = distinct (kind, subtype, exported buffers)')
-    batch = U.Batch(IMPORTS, FN, CASE_TY, RES_TY)
+    batch = Ctx()
     import numba
     nthreads = numba.get_num_threads()
     numba.set_num_threads(1)
@@ -435,11 +464,12 @@ def run(rep):
     finally:
         numba.set_num_threads(nthreads)
     batch.flush(rep)
-    rep.extra['coq_cases'] = len(batch.cases)
+    rep.extra['coq_cases'] = {'in_scope': len(batch.main.cases), 'internal_out_of_scope': len(batch.oos.cases),
+                              'internal_layout': len(batch.layout.cases)}
 
 
 def replay(rep, rp):
-    batch = U.Batch(IMPORTS, FN, CASE_TY, RES_TY)
+    batch = Ctx()
     els = U.unjson(rp['elements'])
     check_oriented(rep, batch, rp['kind'], rp['subtype'], els, desc=rp.get('derivation') or [],
                    intersections='probe' in rp)
